@@ -65,6 +65,7 @@ func checkC16(c *Check, a *Anchors) {
 	lookupResultChecked(c, a)
 	reflectFieldsSettable(c, a)
 	errorsNotSwallowed(c, a)
+	recursionReviewed(c, a, "recursion-reviewed") // termination of loading / merging / compiling: the recursions are the only unbounded construct besides the reviewed loops
 }
 
 func c16BCE(c *Check, a *Anchors) {
